@@ -329,8 +329,10 @@ fn compile_loop(
 
 fn ensure_names(transforms: &[pq::SqlTransform], ctx: &mut AnchorContext) {
     for t in transforms {
+        // a take carries the sort it was defined over, which becomes the ORDER BY in front of it
         if let pq::SqlTransform::Super(rq::Transform::Sort(columns))
-        | pq::SqlTransform::Sort(columns) = t
+        | pq::SqlTransform::Sort(columns)
+        | pq::SqlTransform::Super(rq::Transform::Take(rq::Take { sort: columns, .. })) = t
         {
             for r in columns {
                 ctx.ensure_column_name(r.column);
